@@ -742,7 +742,7 @@ static int vi_motion(int *row, int *off)
 		if (lbuf_jump(xb, mark, &mark_row, &mark_off))
 			return -1;
 		*row = mark_row;
-		*off = mark_off;
+		*off = ren_noeol(lbuf_get(xb, mark_row), mark_off);
 		break;
 	case '%':
 		if (lbuf_pair(xb, row, off))
